@@ -123,6 +123,8 @@ type Violation struct {
 	Trail   []int
 	Where   string
 	Harness string
+	Known   string // non-empty: matches a recorded known finding
+	KnownProp string
 }
 
 func (ex *Exec) get(fr *Frame, v ssa.Value) Value {
@@ -355,8 +357,9 @@ func (ex *Exec) visit(g *Goroutine, fr *Frame, instr ssa.Instruction) (yield boo
 		fr.pc++
 		return ex.RaceMode
 	case *ssa.MakeChan:
-		sz := ex.get(fr, in.Size).(*Term)
-		ex.set(fr, in, ex.newChan(in.Type().Underlying().(*types.Chan).Elem(), ex.C.SExt(sz, 64)))
+		sz := ex.toInt64(ex.get(fr, in.Size).(*Term), in.Size.Type())
+		ex.check(g, fr, ex.C.Cmp(OSle, ex.i64(0), sz), "makechan: size out of range", in.Pos())
+		ex.set(fr, in, ex.newChan(in.Type().Underlying().(*types.Chan).Elem(), sz))
 	case *ssa.Alloc:
 		slot := new(Value)
 		*slot = ex.zero(in.Type().Underlying().(*types.Pointer).Elem())
@@ -506,15 +509,7 @@ func (ex *Exec) check(g *Goroutine, fr *Frame, ok *Term, what string, pos token.
 	if ok.IsFalse() {
 		ex.goPanic(g, fr, what, pos)
 	}
-	if !ex.replaying() {
-		res, model := ex.solve(append(ex.pcCopy(), ex.C.Not(ok)), true)
-		switch res {
-		case Sat:
-			ex.report(&Violation{Kind: "panic", Msg: what, Where: ex.where(fr, pos), Model: model})
-		case Unknown:
-			ex.inconclusive("run-time check " + what + " at " + ex.where(fr, pos))
-		}
-	}
+	ex.findViolation(ex.C.Not(ok), "panic", what, ex.where(fr, pos))
 	ex.decide(0, 1, "check")
 	ex.addPC(ok)
 }
